@@ -652,6 +652,47 @@ def case_vindex(ctx, inp):
         ctx.branch("vindex-nd-points")
 
 
+def case_maskfull(ctx, inp):
+    """x[mask] with a boolean mask of x's full shape (NumPy or dask, possibly chunked differently): the selected
+    elements in C order; the lazy length is unknown (nan) unless the mask is 1-d NumPy."""
+    import numpy as np
+    import dask.array as da
+    shape, chunks = tuple(inp["shape"]), tuple(tuple(c) for c in inp["chunks"])
+    x = np.arange(int(np.prod(shape))).reshape(shape) * 3 + 1
+    m = np.array(inp["mask"], dtype=bool).reshape(shape)
+    d = da.from_array(x, chunks=chunks)
+    dm = da.from_array(m, chunks=tuple(tuple(c) for c in inp["mchunks"])) if inp["dask_mask"] else m
+    exp = x[m]
+    try:
+        r = d[dm]
+        got = np.asarray(r.compute(scheduler="sync"))
+    except Exception as e:
+        ctx.fail("x[full-shape mask] raised " + type(e).__name__, observed=repr(e)[:300])
+        return
+    if got.shape != exp.shape or (got != exp).any():
+        ctx.fail("x[full-shape mask] differs from NumPy", observed=got.tolist(), expected=exp.tolist())
+        return
+    if r.ndim != 1:
+        ctx.fail("x[full-shape mask] is not 1-d", observed=r.ndim)
+    known = not any(c != c for c in r.chunks[0])
+    if known:
+        if sum(r.chunks[0]) != len(exp):
+            ctx.fail("x[full-shape mask]: known lazy chunks do not add up to the result length", observed=list(r.chunks[0]),
+                     expected=len(exp))
+    else:
+        ctx.branch("maskfull-unknown-chunks")
+        # compute_chunk_sizes must make the lazy chunks agree with the computed blocks
+        r2 = r.compute_chunk_sizes()
+        if sum(r2.chunks[0]) != len(exp):
+            ctx.fail("compute_chunk_sizes() after x[mask] disagrees with the result length", observed=list(r2.chunks[0]),
+                     expected=len(exp))
+        else:
+            _blocks_agree(ctx, r2, "x[mask].compute_chunk_sizes()")
+    ctx.branch("maskfull-dask" if inp["dask_mask"] else "maskfull-numpy")
+    if len(shape) > 1:
+        ctx.branch("maskfull-nd")
+
+
 def case_blocks(ctx, inp):
     """x.blocks[index] equals the corresponding region of the NumPy array."""
     import numpy as np
@@ -692,7 +733,7 @@ def case_blocks(ctx, inp):
     ctx.branch("blocks")
 
 
-CASES = {"normidx": case_normidx, "take": case_take, "pyslice": case_pyslice, "norm": case_norm, "slice1d": case_slice1d, "slice1dint": case_slice1dint,
+CASES = {"maskfull": case_maskfull, "normidx": case_normidx, "take": case_take, "pyslice": case_pyslice, "norm": case_norm, "slice1d": case_slice1d, "slice1dint": case_slice1dint,
          "api1d": case_api1d, "apind": case_apind, "vindex": case_vindex, "blocks": case_blocks}
 
 
@@ -912,7 +953,18 @@ def generate(ctx):
                 index.pop()
             index.append(("ellipsis", None))
         yield "vindex", {"shape": shape, "chunks": chunks, "index": index, "ashapes": ashapes}
-    for _ in range(ctx.n(25, 400)):
+    for _ in range(ctx.n(60, 900)):
+        nd = rng.randint(1, 3)
+        shape = [rng.randint(1, 5) for _ in range(nd)]
+        chunks = [list(random_chunks(rng, s, zeros=0.1)) for s in shape]
+        size = 1
+        for v in shape:
+            size *= v
+        p = rng.choice([0.0, 0.3, 0.5, 0.8, 1.0])
+        dm = rng.random() < 0.6
+        yield "maskfull", {"shape": shape, "chunks": chunks, "mask": [rng.random() < p for _ in range(size)], "dask_mask": dm,
+                           "mchunks": chunks if rng.random() < 0.5 else [list(random_chunks(rng, s)) for s in shape]}
+    for _ in range(ctx.n(60, 400)):
         nd = rng.randint(1, 3)
         shape = [rng.randint(1, 6) for _ in range(nd)]
         chunks = [list(random_chunks(rng, s)) for s in shape]
